@@ -356,7 +356,8 @@ def run(ctx):
     okf = False
     for n, c in fires:
         rc = call_recv(c)
-        if (rc + ".called", False) in fst[n.id] and c.args and norm(c.args[0]) == "self._last_processed_offset":
+        if ((rc + ".called", False) in fst[n.id] or (unparse(c.func.value) + ".called", False) in fst[n.id]) and c.args and norm(
+                c.args[0]) == "self._last_processed_offset":
             okf = True
     r.check(okf, "%s#fires-start-d" % stop.qname,
             "stop() does not fire the start Deferred under `not called` with the last processed offset", where(stop, stop.node),
